@@ -396,9 +396,13 @@ func (w *world) block(p ver, chs []change) ver {
 		}
 	}
 	if storage {
+		// a hash-skipped holder trie that has to receive the holder leaf as a NEW key must not delete in the same
+		// block (see below: such blocks are not generated) - otherwise the holder insert would be dropped and a
+		// storage-like trie would be left below an empty main trie
+		dropDels := len(extra) > 0 && w.c.Skip[holder] && cur[holder][string(w.keys[0])] == 0
 		kept := chs[:0:0]
 		for _, ch := range chs {
-			if ch.name == holder && ch.ki == 0 && ch.op == "del" {
+			if ch.name == holder && ch.op == "del" && (ch.ki == 0 || dropDels) {
 				continue
 			}
 			kept = append(kept, ch)
